@@ -160,6 +160,7 @@ def run_alias(case):
     if perr is None:
         sites.append((root + spelling + "|" + ALIAS_PARTNER, fold_poly(partner, base)[0]))
         sites.append((ALIAS_PARTNER + "|" + root + spelling, fold_poly(base, partner)[0]))
+    sites.append((root + spelling + "|" + root + spelling, fold_poly(base, base)[0]))
     for text, want in sites:
         got, e = call(chords.from_shorthand, text)
         S.trans(1)
@@ -381,7 +382,7 @@ def _roots(ctx):
     if ctx.quick:
         return P.canon_names(2)
     out = []
-    for n in P.names(3) + P.canon_names(5):
+    for n in P.names(4) + P.canon_names(7):
         if n not in out:
             out.append(n)
     return out
@@ -391,7 +392,7 @@ def explore(ctx):
     roots = _roots(ctx)
     shs = all_shorthands()
     ctx.bound("shorthands", len(shs))
-    ctx.bound("roots", "CANON(2): 35" if ctx.quick else "NAMES(3) + CANON(5): %d" % len(roots))
+    ctx.bound("roots", "CANON(2): 35" if ctx.quick else "NAMES(4) + CANON(7): %d" % len(roots))
 
     if ctx.want("formula"):
         ctx.product("formula", shs, lambda sh: ([sh, r] for r in roots))
